@@ -5,9 +5,13 @@ import (
 	"encoding/json"
 	"fmt"
 	"os"
+	"strconv"
 	"strings"
 
 	sp "github.com/scipipe/scipipe"
+
+	"verif/internal/spec"
+	"verif/internal/vproto"
 )
 
 func runFmt(in, out string)     { runFmtImpl(in, out) }
@@ -48,4 +52,51 @@ func runAuditRT(list, _ string) {
 	}
 	b, _ := json.Marshal(map[string]int{"roundtrips": n})
 	fmt.Println("AUDITRT-DONE", string(b))
+}
+
+// TaskAPISpec drives tasks through the exported task API (NewTask, Task.Execute, Task.Done) the way a custom
+// scheduler would: every task gets its own core count, all of them are started at once.
+type TaskAPISpec struct {
+	Max       int `json:"max"`
+	ProcCores int `json:"proc_cores"`
+	Tasks     []struct {
+		Cores int `json:"cores"`
+		MS    int `json:"ms"`
+	} `json:"tasks"`
+}
+
+func runTaskAPI(path string) {
+	b, err := os.ReadFile(path)
+	if err != nil {
+		fmt.Fprintln(os.Stderr, err)
+		os.Exit(64)
+	}
+	var s TaskAPISpec
+	if err := json.Unmarshal(b, &s); err != nil {
+		fmt.Fprintln(os.Stderr, err)
+		os.Exit(64)
+	}
+	wf := sp.NewWorkflow("taskapi", s.Max)
+	p := wf.NewProc("custom", spec.VcmdPath+" run id=API{p:n} o=out:{o:out} p=n:{p:n} sleep={p:ms}")
+	p.SetOut("out", "api_{p:n}.out")
+	if s.ProcCores > 0 {
+		p.CoresPerTask = s.ProcCores
+	}
+	var tasks []*sp.Task
+	for i, ts := range s.Tasks {
+		params := map[string]string{"n": fmt.Sprintf("%02d", i), "ms": strconv.Itoa(ts.MS)}
+		t := sp.NewTask(wf, p, p.Name(), p.CommandPattern, map[string]*sp.FileIP{}, p.PathFuncs, p.PortInfo, params, map[string]string{}, "", nil, ts.Cores)
+		tasks = append(tasks, t)
+	}
+	for _, t := range tasks {
+		go t.Execute()
+	}
+	for _, t := range tasks {
+		<-t.Done
+	}
+	t := vproto.MonoNS()
+	rec := map[string]interface{}{"t": t, "children": liveChildren(), "listing": listDir(".")}
+	jb, _ := json.Marshal(rec)
+	vproto.Emit(&vproto.Event{Ev: "ret", T: t})
+	os.Stdout.WriteString("\nRUN-RETURNED " + string(jb) + "\n")
 }
